@@ -11,7 +11,7 @@ use serde_json::{json, Value};
 use specs::error::NoError;
 use specs::prelude::*;
 use specs::saveload::{
-    ConvertSaveload, DeserializeComponents, EntityData, Marker, MarkerAllocator, SerializeComponents,
+    ConvertSaveload, DeserializeComponents, EntityData, MarkedBuilder, Marker, MarkerAllocator, SerializeComponents,
     SimpleMarker, SimpleMarkerAllocator, UuidMarker, UuidMarkerAllocator,
 };
 
@@ -254,6 +254,42 @@ where
                     let e = b.build();
                     handles[wi].push(e);
                     ev = json!({"op":"Create","w":wi+1,"h":hj(e),"a":opt1(&op["a"]),"b":opt1(&op["b"]),"panic":""});
+                }
+                "create_marked" => {
+                    // MarkedBuilder: EntityBuilder::marked / EntityResBuilder::marked
+                    let via_res = op["via"].as_str() == Some("res");
+                    let e = if via_res {
+                        let ents = w.entities();
+                        let mut ms = w.write_storage::<M>();
+                        let mut al = w.write_resource::<M::Allocator>();
+                        let mut b = ents.build_entity();
+                        if let Some(a) = op["a"].as_u64() {
+                            b = b.with(SA(a as u32), &mut w.write_storage::<SA>());
+                        }
+                        b.marked(&mut ms, &mut al).build()
+                    } else {
+                        let mut b = w.create_entity();
+                        if let Some(a) = op["a"].as_u64() {
+                            b = b.with(SA(a as u32));
+                        }
+                        b.marked::<M>().build()
+                    };
+                    handles[wi].push(e);
+                    let mid = w.read_storage::<M>().get(e).map(|m| json!([m.idjs()])).unwrap_or(json!([]));
+                    // recorded as a creation followed by a marking (two events)
+                    let mut ev1 = json!({"op":"Create","w":wi+1,"h":hj(e),"a":opt1(&op["a"]),"b":[],"panic":""});
+                    // the content right after creation is not observable separately: give the creation event
+                    // the observation without the marker
+                    let full = obs::<M>(w);
+                    let mut pre = full.clone();
+                    for ent in pre.as_array_mut().unwrap() {
+                        if ent[0] == hj(e) {
+                            ent[1] = json!([]);
+                        }
+                    }
+                    ev1["obs"] = pre;
+                    out.push(ev1.to_string());
+                    ev = json!({"op":"Mark","w":wi+1,"h":hj(e),"res":mid,"new":true,"panic":""});
                 }
                 "ecreate" => {
                     let e = w.entities().create();
